@@ -98,6 +98,19 @@ def _impl(tier, seed, search):
             if ok: L.close(nm_, np.asarray(r, float).flatten(), w_, TOL, sc6, dict(p=p6, angle=ang6), what='pose * point differs from R p relative to the magnitude of the (micrometre-scale) data', sig='small-scale-point')
         ok, r = L.noraise('SO3*p vs column(small)', lambda: (np.asarray(SO3.Rz(ang6) * p6, float).flatten(), np.asarray(SO3.Rz(ang6) * np.stack([p6, 2 * p6], axis=1), float)[:, 0]), dict(p=p6, angle=ang6), 'single point vs column of a 3xN call')
         if ok: L.close('SO3*p = column of SO3*[p ..](small)', r[0], r[1], TOL, sc6, dict(p=p6, angle=ang6), sig='small-scale-point')
+        # inverse undoes the action value by value on sequences (three different values), every pose class
+        if i % 3 == 1:
+            for cn_, cls_, mk_, d_ in (('SO2', SO2, lambda: inputs.so2(g), 2), ('SE2', SE2, lambda: inputs.se2(g, 1), 2), ('SO3', SO3, lambda: inputs.so3(g), 3), ('SE3', SE3, lambda: inputs.se3(g, 1), 3)):
+                Ms_ = [mk_() for _ in range(3)]; pm_ = g.normal(size=d_)
+                def seq_inv():
+                    Xs_ = cls_(Ms_, check=False); Xi_ = Xs_.inv()
+                    return [np.asarray(Xi_[k_] * np.asarray(Xs_[k_] * pm_, float).flatten(), float).flatten() for k_ in range(3)], [np.asarray(a_, float) for a_ in Xi_.data]
+                ok, r = L.noraise(f'{cn_}[M].inv', seq_inv, dict(cls=cn_), f'inverse of a 3-valued {cn_} applied to the images')
+                if ok:
+                    for k_ in range(3):
+                        L.close(f'{cn_}[M]:inv(X)[k]*(X[k]*p)', r[0][k_], pm_, TOL, max(1.0, float(np.max(np.abs(pm_))), geom.tmag(Ms_[k_]) if cn_.startswith('SE') else 1.0), dict(cls=cn_, k=k_),
+                                what='element k of the inverse of a sequence does not undo element k', sig='seq-inverse')
+                        L.close(f'{cn_}[M]:inv value', r[1][k_], np.linalg.inv(Ms_[k_]), TOL, max(1.0, geom.tmag(Ms_[k_]) if cn_.startswith('SE') else 1.0), dict(cls=cn_, k=k_), sig='seq-inverse')
         # orientation (handedness) preserved in 3-D
         T = inputs.se3(g, 2); X = SE3(T, check=False)
         a, c, e, o = (g.normal(size=3) for _ in range(4))
@@ -154,12 +167,14 @@ def _impl(tier, seed, search):
                 L.close('UQ[M]*p', r_, want_, TOL, float(np.max(np.abs(p))), dict(M=Mq, p=p), sig='UQ[M]*p')
         ok, r = L.noraise('homtrans', lambda: b.homtrans(Tm, p), dict(T=Tm, p=p), 'homtrans(T, p)')
         if ok: L.close('homtrans', np.asarray(r, float).flatten(), R @ p + t, TOL, scale, dict(T=Tm, p=p))
-        N = int(g.integers(1, 8)); Pn = pts(3, N)
+        N = (i % 7) + 1; Pn = pts(3, N)          # every N = 1..7 in turn
         if i % 5 == 0: Pn = g.integers(-9, 10, size=(3, N))          # integer-dtype point arrays
         ok, r = L.noraise('homtrans-dxN', lambda: b.homtrans(Tm, Pn), dict(T=Tm, P=Pn), 'homtrans(T, 3xN)')
         if ok: L.close('homtrans-dxN', r, R @ Pn + t.reshape(3, 1), TOL, max(float(np.max(np.abs(Pn))), float(np.max(np.abs(t)))), dict(T=Tm, P=Pn))
         ok, r = L.noraise('UQ*3xN', lambda: UnitQuaternion(qv) * Pn, dict(q=qv, P=Pn), 'UnitQuaternion * 3xN')
-        if ok and r is not None:
+        if ok and r is not None and not isinstance(r, np.ndarray):
+            L.check('UQ*3xN', False, dict(q=qv, N=N), f'UnitQuaternion * 3x{N} array returned a {type(r).__name__}, not the array of rotated points', sig='UQ*3xN:type')
+        elif ok and r is not None:
             r = np.asarray(r, float)
             if N == 1: r = r.reshape(3, 1)      # a 3x1 array is also the column form of a single vector
             L.close('UQ*3xN', r, R @ Pn, TOL, float(np.max(np.abs(Pn))), dict(q=qv, P=Pn), sig=f'UQ*3xN[N={"d" if N == 3 else "other"}]')
